@@ -57,11 +57,58 @@ def subst_arg(r, name, repl):
     return r
 
 
+# (adjoint on mixed function spaces conjugates each block in place -- the convention pinned by
+#  test_mixed_function_space.test_adjoint -- and is therefore not compared with the block-transposed adjoint)
+PART_OPERATORS = ["lhs", "rhs", "system", "action", "action_given"]
+
+
+@st.composite
+def parts_cases(draw, tier):
+    """Forms on a MixedFunctionSpace: arguments carry parts; blocks (i, j) present or absent at random."""
+    world = draw(worlds(REAL))
+    for n in ("a0", "a1"):
+        world["fields"].pop(n, None)
+    g = world["gdim"]
+    nparts = draw(st.integers(2, 3))
+    shape = draw(st.sampled_from([[], [], [g]]))
+    specs = [draw(st.sampled_from([["P", 1, shape], ["P", 2, shape], ["DG", 1, shape]])) for _ in range(nparts)]
+    for p_, sp in enumerate(specs):
+        world["fields"][f"v{p_}"] = dict(kind="arg", elem=sp, shape=list(shape), number=0, part=p_)
+        world["fields"][f"u{p_}"] = dict(kind="arg", elem=sp, shape=list(shape), number=1, part=p_)
+    G = Gen(draw, world, REAL)
+    L = LinGen(G, cond=False)
+    op = draw(st.sampled_from(PART_OPERATORS))
+    pure = op in ("action", "action_given", "adjoint")
+    blocks = draw(st.lists(st.tuples(st.integers(0, nparts - 1), st.integers(0, nparts - 1)), min_size=1, max_size=4, unique=True))
+    lin = [] if pure else draw(st.lists(st.integers(0, nparts - 1), min_size=0, max_size=2, unique=True))
+    integrals = []
+    terms = [L.term([f"v{i}", f"u{j}"], 1) for i, j in blocks] + [L.term([f"v{i}"], 1) for i in lin]
+    nint = draw(st.sampled_from([1, 1, 2]))
+    for k in range(nint):
+        mine = terms[k::nint]
+        if not mine:
+            continue
+        e = mine[0]
+        for t in mine[1:]:
+            e = ["add", e, t]
+        integrals.append({"itype": "dx", "sid": draw(st.sampled_from([None, None, 1])), "md": draw_md(draw), "expr": e})
+    return {"world": world, "vars": G.vars, "integrals": integrals, "op": op, "cplx": False, "same_space": True,
+            "parts": nparts, "blocks": [list(b_) for b_ in blocks], "env_seed": draw(st.integers(0, 10**6))}
+
+
 @st.composite
 def cases(draw, tier):
+    if draw(st.integers(0, 3)) == 0:
+        return draw(parts_cases(tier))
     cplx = draw(st.integers(0, 4)) == 0
     prof = CPLX if cplx else REAL
     world = draw(worlds(prof))
+    for n_ in ("a0", "a1"):
+        # cell-wise constant arguments make grad(u) vanish only after substitution (energy_norm/action of a form that
+        # degenerates to zero raise IndexError): not part of the generated domain
+        el = world["fields"][n_]["elem"]
+        if el[0] == "Real" or (el[0] in ("DG", "P") and el[1] == 0):
+            world["fields"][n_]["elem"] = ["P", 1, list(world["fields"][n_]["shape"])]
     same = draw(st.booleans())
     if same:
         world["fields"]["a1"] = dict(world["fields"]["a0"], number=1)
@@ -88,9 +135,14 @@ def cases(draw, tier):
             elif k == "fun":
                 terms.append(G.expr((), (), 2))
             else:
+                nv = len(G.vars)
                 t = L.term(["a0", "a1"], draw(st.integers(1, 2)))
                 g = G.leaf_field_only(ush, ())
-                terms.append(subst_arg(t, "a1", ["add", ["fld", "a1"], g] if draw(st.booleans()) else ["sub", g, ["fld", "a1"]]))
+                repl = ["add", ["fld", "a1"], g] if draw(st.booleans()) else ["sub", g, ["fld", "a1"]]
+                terms.append(subst_arg(t, "a1", repl))
+                # ... also inside the variables this term created: variable(u + g) is affine in u
+                for k in range(nv, len(G.vars)):
+                    G.vars[k] = subst_arg(G.vars[k], "a1", repl)
         e = terms[0]
         for t in terms[1:]:
             e = [draw(st.sampled_from(["add", "add", "sub"])), e, t]
@@ -138,6 +190,123 @@ def combine(*pairs):
     return out
 
 
+def make_interp_factory(case, rep, order, cplx):
+    def mk(zero=(), subst=None, alias=None):
+        def make(itype):
+            env = make_env(case, rep, facet=(itype == "exterior_facet"), cplx=cplx)
+            I = Interp(env, order=order)
+            exps, _ = I._monomials(None, False)
+            for a in zero:
+                ncomp = int(np.prod(a.ufl_element().reference_value_shape, dtype=int))
+                env.fixed["rp:" + repr(a)] = np.zeros((ncomp, len(exps)))
+            for k_, v_ in (subst or {}).items():
+                I.subst[repr(k_)] = v_
+            for k_, v_ in (alias or {}).items():
+                I.alias[repr(k_)] = v_
+            return I
+        return make
+    return mk
+
+
+def check_parts(case, b, form, exprs):
+    import ufl
+
+    op = case["op"]
+    n = case["parts"]
+    vs = [b.fields[f"v{p}"] for p in range(n)]
+    us = [b.fields[f"u{p}"] for p in range(n)]
+    order = max(derivative_depth(e) for e in exprs)
+    if order > 3:
+        raise Discard("derivative order > 3")
+    present_u = [a for a in form.arguments() if a.number() == 1]
+    if op in ("action", "action_given", "adjoint") and not present_u:
+        raise Discard("no trial function left")
+    fs = None
+    try:
+        if op == "lhs":
+            res = {"lhs": ufl.lhs(form)}
+        elif op == "rhs":
+            res = {"rhs": ufl.rhs(form)}
+        elif op == "system":
+            l, r = ufl.system(form)
+            res = {"lhs": l, "rhs": r}
+        elif op == "action":
+            res = {"action": ufl.action(form)}
+        elif op == "action_given":
+            fs = [ufl.Coefficient(u.ufl_function_space()) for u in us]
+            res = {"action": ufl.action(form, fs)}
+        else:
+            res = {"adjoint": ufl.adjoint(form)}
+    except RecursionError:
+        raise
+    except Exception as ex:
+        raise Violation(f"{op} (mixed function space) raised {type(ex).__name__}: {str(ex)[:300]}", {"kind": "raised:" + exc_bucket(ex)})
+    nonzero = False
+    for rep in range(2):
+        mk = make_interp_factory(case, rep, order, False)
+        F_uv = form_values(form, mk(), None)
+        F_0v = form_values(form, mk(zero=us), None)
+        F_u0 = form_values(form, mk(zero=vs), None)
+        F_00 = form_values(form, mk(zero=us + vs), None)
+        a_uv = combine((1, F_uv), (-1, F_0v), (-1, F_u0), (1, F_00))
+        L_v = combine((1, F_0v), (-1, F_00))
+        if "lhs" in res:
+            same_values(a_uv, form_values(res["lhs"], mk(), None), "lhs: bilinear part (parts)")
+            nonzero |= any(np.any(np.abs(x) > 1e-12) for x in a_uv.values())
+        if "rhs" in res:
+            same_values(combine((-1, L_v)), form_values(res["rhs"], mk(), None), "rhs: minus the linear part (parts)")
+            same_values(combine((-1, L_v)), form_values(res["rhs"], mk(zero=us), None), "rhs: independent of the trial functions (parts)")
+            nonzero |= any(np.any(np.abs(x) > 1e-12) for x in L_v.values())
+        if "action" in res:
+            fa = res["action"]
+            if any(a_.number() == 1 for a_ in fa.arguments()):
+                raise Violation("action: a trial function is still an argument of the result", {"kind": "action-argument-left"})
+            if fs is not None:
+                exp = form_values(form, mk(subst={u: f for u, f in zip(us, fs)}), None)
+                same_values(exp, form_values(fa, mk(), None), "action: a(f, v) with part k replaced by f[k]")
+            else:
+                new = [c for c in fa.coefficients() if c not in form.coefficients()]
+                sub = {}
+                for u in present_u:
+                    cands = [c for c in new if c.ufl_function_space() == u.ufl_function_space()]
+                    if not cands:
+                        raise Violation("action: no new coefficient on the space of a replaced trial function", {"kind": "action-no-coefficient"})
+                if len(new) != len(present_u):
+                    raise Violation(f"action: {len(present_u)} trial functions but {len(new)} new coefficients", {"kind": "action-coefficient-count"})
+                # which new coefficient replaced which part is not observable from outside when spaces coincide:
+                # accept any assignment that reproduces the value
+                import itertools
+
+                got = form_values(fa, mk(), None)
+                ok = False
+                for perm in itertools.permutations(new):
+                    if any(c.ufl_function_space() != u.ufl_function_space() for c, u in zip(perm, present_u)):
+                        continue
+                    exp = form_values(form, mk(subst=dict(zip(present_u, perm))), None)
+                    try:
+                        same_values(exp, got, "action")
+                        ok = True
+                        break
+                    except Violation:
+                        continue
+                if not ok:
+                    raise Violation("action: result is not the form with each trial function replaced by a new coefficient", {"kind": "value:action"})
+            nonzero = True
+        if "adjoint" in res:
+            adj = res["adjoint"]
+            alias = {}
+            for a_ in adj.arguments():
+                # the new argument with number 0 / part p stands where the old trial function of part p stood
+                old = (us if a_.number() == 0 else vs)[a_.part()]
+                if a_.ufl_function_space() != old.ufl_function_space():
+                    raise Violation("adjoint: function space of a re-numbered argument differs from the argument it replaces", {"kind": "adjoint-spaces"})
+                alias[a_] = old
+            got = form_values(adj, mk(alias=alias), None)
+            same_values({k: np.conj(x) for k, x in F_uv.items()}, got, "adjoint: conj(a(v, u)) (parts)")
+            nonzero |= any(np.any(np.abs(x) > 1e-12) for x in F_uv.values())
+    return {"nontrivial": nonzero, "labels": ["op:" + ("lhs" if op == "system" else ("action" if op == "action_given" else op)), "parts"]}
+
+
 def check_case(case):
     import ufl
 
@@ -152,6 +321,21 @@ def check_case(case):
         raise Discard("empty form")
     op = case["op"]
     cplx = case["cplx"]
+    try:
+        from ufl.algorithms import expand_derivatives
+
+        fe = expand_derivatives(form)
+        if fe.empty() or (case["op"] in ("action", "action_given", "adjoint", "energy_norm") and len(fe.arguments()) != 2):
+            # the form vanishes / loses an argument once derivatives are expanded (gradient of a cell-wise constant
+            # argument): action/energy_norm of the zero form raise IndexError -- not part of the generated domain
+            raise Discard("form degenerates after derivative expansion")
+    except Discard:
+        raise
+    except Exception as ex:
+        raise Discard("pre:" + type(ex).__name__)
+    nparts = case.get("parts", 0)
+    if nparts:
+        return check_parts(case, b, form, exprs)
     v, u = b.fields["a0"], b.fields["a1"]
     order = max(derivative_depth(e) for e in exprs)
     if order > 3:
